@@ -440,7 +440,7 @@ func cmdCheck(args []string) int {
 	}
 	cov := map[string]interface{}{
 		"obligations": nObl, "discharged": nOK,
-		"checker_cmd":              "/verif/bin/govc check " + prop + " " + tier + "  (VCs from go/ssa of /repo's working tree with -tags verif; one SMT query per obligation raced on z3-5.1.0, cvc5-1.0.3, z3-4.8.12)",
+		"checker_cmd":              "/verif/bin/govc check " + prop + " " + tier + "  (VCs from go/ssa of /repo's working tree with -tags verif; one SMT query per obligation raced on z3-5.1.0 (two random seeds), cvc5-1.0.3, z3-4.8.12)",
 		"trusted_base":             tb,
 		"functions_under_contract": fuc,
 		"loops_with_invariants":    loopsAnnot,
